@@ -36,6 +36,14 @@ def minres(
     mm_ = matmul_closure
     if preconditioner is None:
         preconditioner = lambda x: x.clone()
+    else:
+        # The Lanczos vectors and their preconditioned versions are normalized in place below,
+        # so they must not share memory (a preconditioner closure may return its argument)
+        _preconditioner = preconditioner
+
+        def preconditioner(x):
+            res = _preconditioner(x)
+            return res.clone() if res.data_ptr() == x.data_ptr() else res
 
     if shifts is None:
         shifts = torch.tensor(0.0, dtype=rhs.dtype, device=rhs.device)
@@ -60,9 +68,10 @@ def minres(
     eps = torch.tensor(eps, dtype=rhs.dtype, device=rhs.device)
 
     # Create space for matmul product, solution
+    # (no in-place operations on what the closure returns: it may be the closure's own argument or state)
     prod = mm_(rhs)
     if value is not None:
-        prod.mul_(value)
+        prod = prod.mul(value)
 
     # Resize shifts
     shifts = _pad_with_singletons(shifts, 0, prod.dim() - shifts.dim() + 1)
@@ -131,14 +140,14 @@ def minres(
         # Perform matmul
         prod = mm_(qvec_prev1)
         if value is not None:
-            prod.mul_(value)
+            prod = prod.mul(value)
 
         # Get next Lanczos terms
         # --> alpha_curr, beta_curr, qvec_curr
         torch.mul(prod, qvec_prev1, out=tmpvec)
         torch.sum(tmpvec, -2, keepdim=True, out=alpha_curr)
 
-        zvec_curr = prod.addcmul_(alpha_curr, zvec_prev1, value=-1).addcmul_(beta_prev, zvec_prev2, value=-1)
+        zvec_curr = torch.addcmul(prod, alpha_curr, zvec_prev1, value=-1).addcmul_(beta_prev, zvec_prev2, value=-1)
 
         qvec_curr = preconditioner(zvec_curr)
         torch.mul(zvec_curr, qvec_curr, out=tmpvec)
@@ -189,7 +198,7 @@ def minres(
 
         # Update terms for next iteration
         # Lanczos terms
-        zvec_prev2, zvec_prev1 = zvec_prev1, prod
+        zvec_prev2, zvec_prev1 = zvec_prev1, zvec_curr
         qvec_prev1 = qvec_curr
         beta_prev, beta_curr = beta_curr, beta_prev
         # Givens rotations terms
